@@ -1,6 +1,6 @@
 """C15 - Rate limiting is a per-client-subnet token bucket isolating clients (DESIGN.md section 4, C15)."""
 import json
-import vf
+import vf, routerfam
 
 
 def keyfn(ev, inv):
@@ -35,10 +35,14 @@ def run(ctx):
     t1 = ctx.path("lim.ndjson")
     ctx.driver(drv, ["-out", t1, "-stim", sp, "-random", 40 if ctx.quick else 600, "-conc", 150 if ctx.quick else 2000])
     ctx.validate("LimiterTrace", t1, keyfn, describe=describe, timeout=3000, require_events=1000)
+    # live listeners: refusals on the wire, isolation between subnets, the address that is charged
+    rdrv = vf.build_driver("routerdrv")
+    trace, _ = routerfam.run_mode(ctx, rdrv, "c15live")
+    routerfam.validate(ctx, trace, only=["Inv_C15_", "Inv_C03_Answered", "Unconsumable"], require_events=500)
     ctx.extra["stimuli_replayed"] = len(stims)
     ctx.assumptions += [
         "virtual time: rates 8/16 per second and arrival times that are multiples of 125 ms keep x/time/rate's float arithmetic exact, so decisions are compared for equality",
         "the global limiter is golang.org/x/time/rate itself and is modelled (Limiter_MC_global) but not trace-checked here",
-        "the live-listener clauses (REFUSED/503, not forwarded, charged address) are checked on router traces (see C15 live part)",
+        "live part: one flooding subnet per listener kind (udp, tcp, http, gnet, tls, quic) while another subnet stays within its own budget; the limiter hook (under the bucket's lock) gives the charged address and the admitted costs in real time (3 ms tolerance)",
     ]
     return ctx.finish()
